@@ -149,10 +149,10 @@ PROPS = {
     "C01": {
         "harness": "c01",
         "props_file": "Props/C01.v",
-        "run_module": "Model.Graph Model.Walk Model.RunC15 Model.RunC02 Model.RunC14 Model.Prune Model.RunC17 Model.Builder Model.RunC01 Model.Jsr Model.RunJsr Model.RunJsrAll",
+        "run_module": "Model.Graph Model.Walk Model.RunC15 Model.RunC02 Model.RunC14 Model.Prune Model.RunC17 Model.Builder Model.RunC01 Model.Jsr Model.RunJsr Model.Decl Model.RunDecl Model.RunJsrAll",
         "run_fn": "run_c01j",
         "pinned_theorems": ["C01_complete", "C01_settled_unfold", "C01_single_entry_step", "C01_recorded_dep", "C01_nothing_pending",
-                            "C01_registry_complete", "C01_registry_settled_unfold"],
+                            "C01_registry_complete", "C01_registry_settled_unfold", "C01_one_entry_per_text", "C01_static_wins"],
         "rule": ("proviso worlds of 2-11 modules (JS/TS/JSX/TSX/d.ts/mjs/mts/JSON by extension or content-type header; "
                  "static/named/type-only/dynamic/export-star/export-type/@deno-types/reference types+path/self-types/"
                  "x-typescript-types/JSDoc/import-type imports; json/text/bytes/bogus attributes as a function of the "
@@ -163,12 +163,19 @@ PROPS = {
                  "referrers, redirects, per-module dependencies with code/type targets, attributes, dynamic flags, "
                  "external/asset flags, configured imports, has_node, multiset of loader calls) must equal the "
                  "extracted model's. 20% of the worlds answer 1-2 modules under another final specifier (an existing "
-                 "one or a fresh one that serves the same module). non-trivial = >= 3 entries and (an error, a redirect or a dynamic dependency)." + REG_TEXT),
+                 "one or a fresh one that serves the same module). non-trivial = >= 3 entries and (an error, a redirect or a dynamic dependency)." + REG_TEXT +
+                 " DECLARATION LAYER (Model/Decl.v): the last 4000 (quick) / 80000 (thorough) cases hand random lists of 1-7 dependency "
+                 "descriptors (static import/export/import-type/export-type/import-equals/export-equals/defer/source/module-augmentation and "
+                 "dynamic import/defer/source/require with string arguments; 1-3 specifier texts so that repeats in every order are frequent; "
+                 "type attributes, @deno-types specifiers, side-effect flags) for 7 referrers (ts/js/tsx/mjs/d.ts/d.mts, file/http/https) and "
+                 "all graph kinds to the REAL parse_module through a provided analyzer; the recorded dependency map (order, code and type "
+                 "targets with the range of the import they were resolved from, is_dynamic, first type attribute, @deno-types text, number of "
+                 "imports) must equal the model's; what a text resolves to comes from separate real runs on a module importing it alone"),
         "assumptions": [
             "stage B1 + registry stage B2: no npm resolution, no source-phase imports, no source maps, utf-8 sources",
             "the loader is a function of its arguments",
         ],
-        "partial": ["completeness (nothing reachable is absent) is proved for every world, for stage B1 (C01_complete) and for the registry stage (C01_registry_complete, no hypothesis on the world); the converse (nothing unreachable is present) is not yet proved and is checked per case (model = real builder; C15/C02 on the same real graphs)"],
+        "partial": ["second layer: triple-slash references, JSX import source, JSDoc imports, self-types and header types are not in the declaration model (their analysis is C08's subject); template arguments of dynamic imports are not modelled", "completeness (nothing reachable is absent) is proved for every world, for stage B1 (C01_complete) and for the registry stage (C01_registry_complete, no hypothesis on the world); the converse (nothing unreachable is present) is not yet proved and is checked per case (model = real builder; C15/C02 on the same real graphs)"],
     },
     "C03": {
         "harness": "c03",
